@@ -79,6 +79,20 @@ def flip_iff_test_point_disagrees(ctx):
     src = [unparse(s.value) for s in eqs]
     ctx.check(any(''.join(x.split()) == 'equals(before,after,next(testvals),**kwds)' for x in src) and any(x == 'True' for x in src), '_simplify1#equals',
               'eq = equals(before, after, next test point); unevaluable -> do not flip', 'eq is computed as %s' % src, f, eqs[0] if eqs else f.node)
+    # the only failures that may silently decide "do not flip" are the documented ones (a complex / unevaluable test value:
+    # ValueError, TypeError); a singular test point (ZeroDivisionError) or anything broader must surface, not keep the comparator
+    tries = [n for n in walk_no_nested(f.node) if isinstance(n, ast.Try) and any(s_ in eqs for s_ in n.body)]
+    ctx.need(tries, '_simplify1: the test-point comparison is no longer inside a try')
+    caught = set()
+    for h in tries[0].handlers:
+        if h.type is None:
+            caught.add('*')
+        else:
+            caught.update(unparse(e) for e in (h.type.elts if isinstance(h.type, ast.Tuple) else [h.type]))
+    extra = sorted(caught - {'ValueError', 'TypeError'})
+    ctx.check(not extra, '_simplify1#undecided-test', 'only ValueError / TypeError at the test point mean "keep the comparator"',
+              'a failure of the test-point comparison with %s now silently keeps the comparator: for a divisor that vanishes at the test point both sign cases '
+              'get the unflipped relation' % extra, f, tries[0].handlers[0], statement='test-point failure %s decides not to flip' % extra)
     tv = asg['testvals'][0]
     sg = asg['signs'][0]
     wt = T.term(ast.parse("it.product(*((z+'+'+eps, z+'-'+eps) for z in zro))", mode='eval').body)
@@ -109,7 +123,7 @@ def merge_tables(ctx):
 ''', 'merge', '(> , <) -> != | contradiction -> dropped (inclusive); (>= , <=) -> = | contradiction -> None (exclusive)')
 
 
-@rule('C12.d', min_instances=4)
+@rule('C12.d', min_instances=3)
 def matrix_and_bounds_to_text(ctx):
     """linear_symbolic joins row i of A with ' = ' and b[i], row i of G with ' <= ' and h[i]; symbolic_bounds pairs '>=' with min (skipping -inf) and '<=' with max (skipping inf)"""
     f = ctx.func(SY + ':linear_symbolic')
@@ -121,19 +135,15 @@ def matrix_and_bounds_to_text(ctx):
         inner = [s for s in stmts_of(f.node) if isinstance(s, ast.AugAssign) and isinstance(s.target, ast.Name) and s.target.id == summ]
         want = T.term(ast.parse("str(%s[i][j]) + '*' + names[j] + ' + '" % mat, mode='eval').body)
         ctx.check(bool(inner) and t(inner[0].value) == want, 'linear_symbolic#%s-term' % mat, 'coefficient [i][j] times variable j', 'term text is %s' % (unparse(inner[0].value) if inner else None), f, inner[0] if inner else f.node)
+    # symbolic_bounds: None -> -inf / +inf by an `is None` test (a bound of exactly 0 is a bound), min <= max enforced, one
+    # line '<var> >= <min>' per finite lower bound and '<var> <= <max>' per finite upper bound, numbers printed in full
+    from .c12_refs import REFS
     g = ctx.func(SY + ':symbolic_bounds')
-    lo = [s for s in g.node.body if isinstance(s, ast.Assign) and isinstance(s.targets[0], ast.Name) and s.targets[0].id == 'lo']
-    hi = [s for s in g.node.body if isinstance(s, ast.Assign) and isinstance(s.targets[0], ast.Name) and s.targets[0].id == 'hi']
-    ctx.need(len(lo) >= 2 and len(hi) >= 2, 'symbolic_bounds: lo/hi not found')
-    ctx.check(const_value(lo[0].value) == '%s >= %s' and const_value(hi[0].value) == '%s <= %s', 'symbolic_bounds#templates', "lo: '%s >= %s', hi: '%s <= %s'",
-              'templates are %s / %s' % (unparse(lo[0].value), unparse(hi[0].value)), g, lo[0])
-    wl = T.term(ast.parse("'\\n'.join(lo % (i,str(float(j)).lstrip('0')) for (i,j) in imin if j != -inf)", mode='eval').body)
-    wh = T.term(ast.parse("'\\n'.join(hi % (i,str(float(j)).lstrip('0')) for (i,j) in imax if j != inf)", mode='eval').body)
-    ctx.check(t(lo[-1].value) == wl and t(hi[-1].value) == wh, 'symbolic_bounds#pairing', 'lower text from min (skipping -inf), upper text from max (skipping inf)',
-              'bounds text built as %s / %s' % (unparse(lo[-1].value), unparse(hi[-1].value)), g, lo[-1])
-    src = ''.join(unparse(g.node).split())
-    ctx.check('imin=enumerate(min)' in src and 'imax=enumerate(max)' in src and 'imin=zip(variables,min)' in src and 'imax=zip(variables,max)' in src, 'symbolic_bounds#sources',
-              'imin from min, imax from max', 'imin/imax sources changed', g, g.node)
+    got = SB.summary(g.node, strict_casts=True)
+    want = SB.summary_of_source(REFS[SY + ':symbolic_bounds'], strict_casts=True)
+    ctx.stats['terms_compared'] += len(got)
+    ctx.check(got == want, 'symbolic_bounds', "None bounds become -inf/+inf (`is None`), '>=' lines from min, '<=' lines from max, infinite bounds skipped, numbers via str(float(.))",
+              'symbolic_bounds differs from its confirmed behaviour: %s' % SB.diff(got, want), g, g.node)
 
 
 def _expand_str(node, loops):
